@@ -132,6 +132,8 @@ pub struct SendSpec {
     pub to_self: bool,
     /// payload: the current value of `x` (else the constant 1000 + k)
     pub var: bool,
+    /// payload: the array `arr` (= `[x]`) handed over by `<param location="arr">` (overrides `var`)
+    pub loc: bool,
 }
 
 #[derive(Clone, Debug)]
@@ -163,7 +165,7 @@ impl Case {
             .iter()
             .map(|o| match &o.kind {
                 OpKind::Send(ss) => json!({"s": o.sess, "at": o.at, "op": "send", "sends": ss.iter().map(|s| json!({
-                    "k": s.k, "id": s.id, "delay": s.delay, "expr": s.expr, "self": s.to_self, "var": s.var})).collect::<Vec<_>>()}),
+                    "k": s.k, "id": s.id, "delay": s.delay, "expr": s.expr, "self": s.to_self, "var": s.var, "loc": s.loc})).collect::<Vec<_>>()}),
                 OpKind::Cancel(id) => json!({"s": o.sess, "at": o.at, "op": "cancel", "id": id}),
                 OpKind::Assign(n) => json!({"s": o.sess, "at": o.at, "op": "assign", "n": n}),
                 OpKind::Term => json!({"s": o.sess, "at": o.at, "op": "term"}),
@@ -189,6 +191,7 @@ impl Case {
                                 expr: s["expr"].as_bool()?,
                                 to_self: s["self"].as_bool()?,
                                 var: s["var"].as_bool()?,
+                                loc: s["loc"].as_bool().unwrap_or(false),
                             })
                         })
                         .collect::<Option<Vec<_>>>()?,
@@ -219,7 +222,7 @@ fn sender_xml(case: &Case, sess: usize, recorder_id: u32) -> String {
     let mut x = String::new();
     x.push_str(
         "<scxml xmlns=\"http://www.w3.org/2005/07/scxml\" version=\"1.0\" datamodel=\"rfsm-expression\" initial=\"s\">\
-         <datamodel><data id=\"x\" expr=\"0\"/></datamodel><state id=\"s\">",
+         <datamodel><data id=\"x\" expr=\"0\"/><data id=\"arr\" expr=\"[0]\"/></datamodel><state id=\"s\">",
     );
     for (i, o) in case.ops.iter().enumerate() {
         if o.sess != sess {
@@ -229,7 +232,7 @@ fn sender_xml(case: &Case, sess: usize, recorder_id: u32) -> String {
             OpKind::Send(ss) => {
                 x.push_str(&format!("<transition event=\"op.{}\">", i));
                 for s in ss {
-                    x.push_str(&format!("<script>mark('pre',{},x)</script><send event=\"e.{}\"", s.k, s.k));
+                    x.push_str(&format!("<script>mark('pre',{},{})</script><send event=\"e.{}\"", s.k, if s.loc { "arr" } else { "x" }, s.k));
                     if let Some(id) = &s.id {
                         x.push_str(&format!(" id=\"{}\"", xml_attr(id)));
                     }
@@ -241,7 +244,9 @@ fn sender_xml(case: &Case, sess: usize, recorder_id: u32) -> String {
                     } else {
                         x.push_str(&format!(" delay=\"{}\"", xml_attr(&s.delay)));
                     }
-                    if s.var {
+                    if s.loc {
+                        x.push_str("><param name=\"v\" location=\"arr\"/></send>");
+                    } else if s.var {
                         x.push_str("><param name=\"v\" expr=\"x\"/></send>");
                     } else {
                         x.push_str(&format!("><param name=\"v\" expr=\"{}\"/></send>", 1000 + s.k));
@@ -258,7 +263,7 @@ fn sender_xml(case: &Case, sess: usize, recorder_id: u32) -> String {
             }
             OpKind::Assign(n) => {
                 x.push_str(&format!(
-                    "<transition event=\"op.{i}\"><script>mark('apre',{i},x)</script><assign location=\"x\" expr=\"{n}\"/><script>mark('apost',{i},x)</script></transition>"
+                    "<transition event=\"op.{i}\"><script>mark('apre',{i},x)</script><assign location=\"x\" expr=\"{n}\"/><assign location=\"arr[0]\" expr=\"{n}\"/><script>mark('apost',{i},x)</script></transition>"
                 ));
             }
             OpKind::Term => {
@@ -576,7 +581,7 @@ fn model_script(case: &Case, model: &mut Model) -> (String, BTreeMap<usize, i64>
                     }
                     let id = s.id.as_ref().map(|x| hexs(x)).unwrap_or("-".to_string());
                     let tg = if s.to_self { "-".to_string() } else { hexs("R") };
-                    let pl = if s.var { "v".to_string() } else { format!("c{}", 1000 + s.k) };
+                    let pl = if s.loc { "l".to_string() } else if s.var { "v".to_string() } else { format!("c{}", 1000 + s.k) };
                     items.push((o.at, 1 + j as u32, format!("{}S,{},{},{},{},{}", c, s.k, id, tg, d, pl)));
                 }
             }
@@ -638,7 +643,7 @@ fn oracle_request(case: &Case, obs: &Obs, delays: &BTreeMap<usize, i64>) -> Stri
                 continue; // aborted sends are judged by the error count
             }
             let post = post.unwrap_or(obs.end_us);
-            let expected_val = if s.var { val.clone() } else { format!("{}", 1000 + s.k) };
+            let expected_val = if s.var || s.loc { val.clone() } else { format!("{}", 1000 + s.k) };
             sends.push(format!(
                 "{},{},{},{},{},{},{},{}",
                 s.k,
@@ -753,14 +758,14 @@ pub fn gen_case(p: &mut Prng) -> Case {
                     // not carried out, or not delayed
                     let delay = p.pick(&["-1s", "1Sx", "abc", "-40ms", "+40ms", ".s", "1e", "4 0ms"]).to_string();
                     let expr = true;
-                    ss.push(SendSpec { k, id: Some(p.pick(IDS).to_string()), delay, expr, to_self: false, var: true });
+                    ss.push(SendSpec { k, id: Some(p.pick(IDS).to_string()), delay, expr, to_self: false, var: true, loc: false });
                     k += 1;
                     continue;
                 }
                 if special < 14 {
                     let delay = p.pick(&["0s", "0ms", "", "5", "40", "0.4ms", "-0.4ms", "1.5.5s", "40 40ms", "40true"]).to_string();
                     let expr = !delay.is_empty() && p.chance(1, 2);
-                    ss.push(SendSpec { k, id: None, delay, expr, to_self: p.chance(1, 4), var: p.chance(3, 4) });
+                    ss.push(SendSpec { k, id: None, delay, expr, to_self: p.chance(1, 4), var: p.chance(3, 4), loc: false });
                     k += 1;
                     continue;
                 }
@@ -794,7 +799,7 @@ pub fn gen_case(p: &mut Prng) -> Case {
                 let sp = spellings(d);
                 let delay = p.pick(&sp).clone();
                 pending[sess].push((id.clone(), at + d));
-                ss.push(SendSpec { k, id, delay, expr: p.chance(1, 3), to_self: p.chance(1, 5), var: p.chance(3, 4) });
+                ss.push(SendSpec { k, id, delay, expr: p.chance(1, 3), to_self: p.chance(1, 5), var: p.chance(3, 4), loc: p.chance(1, 7) });
                 k += 1;
             }
             OpKind::Send(ss)
@@ -825,7 +830,7 @@ pub fn gen_case(p: &mut Prng) -> Case {
 }
 
 fn mk_send(k: usize, id: Option<&str>, delay: &str) -> SendSpec {
-    SendSpec { k, id: id.map(|x| x.to_string()), delay: delay.to_string(), expr: false, to_self: false, var: true }
+    SendSpec { k, id: id.map(|x| x.to_string()), delay: delay.to_string(), expr: false, to_self: false, var: true, loc: false }
 }
 
 pub fn corpus() -> Vec<(&'static str, Case)> {
@@ -917,6 +922,26 @@ pub fn corpus() -> Vec<(&'static str, Case)> {
                 horizon: 200,
             },
         ),
+        // an array handed over by location stays shared with the sender's datamodel
+        (
+            "shared container",
+            Case {
+                senders: 1,
+                ops: vec![
+                    op(0, 0, OpKind::Assign(1)),
+                    op(
+                        0,
+                        80,
+                        OpKind::Send(vec![
+                            SendSpec { k: 0, id: None, delay: "200ms".into(), expr: false, to_self: false, var: true, loc: true },
+                            SendSpec { k: 1, id: None, delay: "120ms".into(), expr: false, to_self: false, var: true, loc: false },
+                        ]),
+                    ),
+                    op(0, 160, OpKind::Assign(99)),
+                ],
+                horizon: 320,
+            },
+        ),
         // not carried out / not delayed
         (
             "invalid and zero delays",
@@ -927,11 +952,11 @@ pub fn corpus() -> Vec<(&'static str, Case)> {
                         0,
                         0,
                         OpKind::Send(vec![
-                            SendSpec { k: 0, id: Some("A".into()), delay: "-1s".into(), expr: true, to_self: false, var: true },
-                            SendSpec { k: 1, id: Some("B".into()), delay: "1Sx".into(), expr: true, to_self: false, var: true },
-                            SendSpec { k: 2, id: None, delay: "5".into(), expr: true, to_self: false, var: true },
-                            SendSpec { k: 3, id: None, delay: "".into(), expr: false, to_self: false, var: false },
-                            SendSpec { k: 4, id: None, delay: "120 ms".into(), expr: true, to_self: true, var: false },
+                            SendSpec { k: 0, id: Some("A".into()), delay: "-1s".into(), expr: true, to_self: false, var: true, loc: false },
+                            SendSpec { k: 1, id: Some("B".into()), delay: "1Sx".into(), expr: true, to_self: false, var: true, loc: false },
+                            SendSpec { k: 2, id: None, delay: "5".into(), expr: true, to_self: false, var: true, loc: false },
+                            SendSpec { k: 3, id: None, delay: "".into(), expr: false, to_self: false, var: false, loc: false },
+                            SendSpec { k: 4, id: None, delay: "120 ms".into(), expr: true, to_self: true, var: false, loc: false },
                         ]),
                     ),
                     op(0, 80, OpKind::Assign(3)),
@@ -1063,6 +1088,7 @@ fn judge(p: &Prepared, out: &Outcome, model: &mut Model, rep: &mut Report) {
                     rep.count(if s.id.is_some() { "send_with_id" } else { "send_without_id" });
                     rep.count(if s.expr { "send_delayexpr" } else { "send_delay_attr" });
                     rep.count(if s.to_self { "send_to_self" } else { "send_to_recorder" });
+                    rep.count(if s.loc { "payload_array_by_location" } else if s.var { "payload_variable" } else { "payload_constant" });
                     let d = *p.delays.get(&s.k).unwrap_or(&0);
                     rep.count(if d < 0 { "delay_negative_or_invalid" } else if d == 0 { "delay_zero" } else { "delay_positive" });
                 }
@@ -1100,6 +1126,13 @@ fn judge(p: &Prepared, out: &Outcome, model: &mut Model, rep: &mut Report) {
         let mut seen = std::collections::BTreeSet::new();
         for f in verdict.split('|') {
             let mut sig = signature_of(f);
+            if sig == "C16:late-value" {
+                // which send?  a container handed over by location is the known sharing defect
+                let k = f.split(':').nth(1).and_then(|x| x.parse::<usize>().ok());
+                if case.sends().iter().any(|(_, _, s)| Some(s.k) == k && s.loc) {
+                    sig = "C16:late-value:shared-container".to_string();
+                }
+            }
             // verdicts that rest on the promptness of the timer crate's own threads are only taken
             // from a calm run; from a stalled one they are the documented asynchrony of `Stop`
             // (known finding) or simply undecided
@@ -1374,6 +1407,32 @@ pub fn run(args: &Args, model: &mut Model) -> Report {
             let p = prepare("replay".to_string(), c, model);
             raise_priority();
             run_timing(vec![p], 1, model, &mut rep);
+        } else if let Some(pr) = v.get("probe") {
+            // free-form probe: a sender document (%R% = the recorder's session id), events at times, print the marks
+            let marks: Marks = Arc::new(Mutex::new(Vec::new()));
+            let executor = FsmExecutor::new_without_io_processor();
+            let base = Instant::now();
+            let mut rec = start(recorder_xml(), &marks, &executor).unwrap();
+            let xml = pr["sender"].as_str().unwrap().replace("%R%", &rec.session_id.to_string());
+            let mut snd = start(xml, &marks, &executor).unwrap();
+            let t0 = Instant::now() + Duration::from_millis(30);
+            for e in pr["events"].as_array().unwrap() {
+                sleep_until(t0 + Duration::from_millis(e[0].as_u64().unwrap()));
+                let _ = snd.sender.send(Box::new(Event::new_simple(e[1].as_str().unwrap())));
+            }
+            sleep_until(t0 + Duration::from_millis(pr["wait"].as_u64().unwrap_or(500)));
+            let _ = rec.sender.send(Box::new(Event::new_simple(EVENT_CANCEL_SESSION)));
+            let _ = snd.sender.send(Box::new(Event::new_simple(EVENT_CANCEL_SESSION)));
+            let a = join_with_timeout(&mut rec, Duration::from_secs(3));
+            let b = join_with_timeout(&mut snd, Duration::from_secs(3));
+            let out: Vec<Value> = marks
+                .lock()
+                .unwrap()
+                .iter()
+                .map(|r| json!([r.at.duration_since(base).as_micros() as u64, r.sess, r.label, r.a1, r.a2]))
+                .collect();
+            rep.extra.insert("probe_marks".to_string(), json!(out));
+            rep.extra.insert("probe_join".to_string(), json!(format!("{:?} {:?}", a, b)));
         } else if let Some(d) = v.get("duration").and_then(|x| x.as_str()) {
             check_duration(d, "replay", model, &mut rep);
         } else if let Some(d) = v.get("reader_delay").and_then(|x| x.as_str()) {
